@@ -172,6 +172,10 @@ class Node(object):
             self.simulation.statetracker.change_state_release(self, node_blocked_to, ind, True)
             ind.is_blocked = False
             self.simulation.statetracker.change_state_accept(self, ind)
+            if ind.priority_class != ind.prev_priority_class:
+                # its class was changed after the service it had completed: it stays, under its new priority
+                self.change_priority_queue(ind)
+                ind.prev_priority_class = ind.priority_class
         self.attach_server(srvr, ind)
         self.give_service_time_after_preemption(ind)
         ind.service_start_date = self.now
